@@ -44,7 +44,12 @@ def main():
     try:
         rc, out = sh(["git", "-C", "/repo", "worktree", "add", "-f", "--detach", wt, "HEAD"])
         assert rc == 0, out
-        demo = os.path.join(d, "demo.py")
+        # the demonstrations were written to run as out/<name>/demo.py inside the tree
+        name = os.path.basename(d.rstrip("/"))
+        os.makedirs(os.path.join(wt, "out", name), exist_ok=True)
+        if os.path.exists(os.path.join(d, "demo.py")):
+            sh(["cp", os.path.join(d, "demo.py"), os.path.join(wt, "out", name, "demo.py")])
+        demo = os.path.join(wt, "out", name, "demo.py")
         if os.path.exists(demo) and not a.skip_tests:
             rc0, o0 = sh([PY, demo], cwd=wt, timeout=900)
             res["demo_without_patch_rc"] = rc0
